@@ -227,6 +227,37 @@ def fromArrow2 (core : Core OB Items D Out) (cv : Conv AF AA) (fields : List AF)
   let deserializer ← Deserializer.fromArrow2 core cv fields arrays
   core.deserialize deserializer
 
+/-! ### the count checks of the reader constructors
+
+`Deserializer::from_arrow` and `Deserializer::from_arrow2` compare `fields.len()` with `arrays.len()` BEFORE anything
+else (above: the first statement; no field or array has been converted yet, so this error wins over every conversion
+error); `from_record_batch` passes the batch's own fields and columns to `from_arrow`; `from_marrow` has no check of
+its own and relies on the one `Deserializer::new` starts with (deserializer.rs; modelled with the rest of that
+constructor in `SaModel/Read/Access.lean`, `Access.new true`).  For an abstract core that check is a property: -/
+
+/-- the core's `Deserializer::new` refuses a different number of fields and views with an error (not a panic) -/
+def Core.RefusesCounts (core : Core OB Items D Out) : Prop :=
+  ∀ (fields : List Field) (views : List Arr), fields.length ≠ views.length →
+    ∃ msg, core.deserializerNew fields views = .error (.err msg)
+
+/-- `Deserializer::new(fields, views)`: its count check in front of the rest of the constructor -/
+def deserializerNewCounted (rest : List Field → List Arr → R D) (fields : List Field) (views : List Arr) : R D :=
+  if fields.length != views.length then
+    fail s!"Cannot deserialize: the number of fields ({fields.length}) does not match the number of arrays ({views.length})"
+  else rest fields views
+
+/-- a core whose `Deserializer::new` starts with the count check -/
+def Core.counted (core : Core OB Items D Out) : Core OB Items D Out :=
+  { core with deserializerNew := deserializerNewCounted core.deserializerNew }
+
+/-- the regression the model must exclude (used only for the negative example of `Props/C19.lean`): a `from_arrow2`
+without the count check that walks `fields.iter().zip(arrays)` -/
+def Deserializer.fromArrow2Zipping (core : Core OB Items D Out) (cv : Conv AF AA) (fields : List AF) (arrays : List AA) : R D := do
+  let n := min fields.length arrays.length
+  let fields ← (fields.take n).mapM cv.fieldToMarrow
+  let views ← (arrays.take n).mapM cv.viewOf
+  core.deserializerNew fields views
+
 end
 
 /-! ### `build.rs` / `lib.rs`: which arrow version the API is built against -/
